@@ -11,12 +11,15 @@ orchestrate.py:528-537) and EVERY fault assignment, pool size, task count and sc
   that the master still tracks in `running_tasks`;
 * `C06_capacity_is_tracked_capacity` — hence the capacity the code computes from `_pendings` is the
   capacity `Model/Sched.lean` computes from `running_tasks` (`AC.hasCapacity`): the abstraction used by
-  all other C06 theorems is justified, and `C06_pend_model_loses_nothing` / `C06_pend_model_adds_nothing`:
-  the two LTSs have the same reachable bookkeeping states;
+  all other C06 theorems is justified; `C06_pend_model_adds_nothing`: every reachable state of the
+  extended LTS projects to a reachable state of `AC` (so every `AReach` theorem of Properties/C06.lean
+  holds for it; the converse - the extra `has_capacity` guard on `.submit` is implied - follows from
+  the capacity equality but is not stated here);
 * `C06_untracked_worker_has_capacity` — an ABANDONED attempt does not consume capacity: a worker on
   which the master tracks no task has capacity, however many of its calls were abandoned before;
-* `C06_rejoined_worker_has_capacity`, `C06_rejoined_worker_usable` — after a rejoin the worker is alive
-  and has capacity, and if it is acquired and work is left a submission to it is enabled.
+* `C06_rejoined_worker_has_capacity` — after a rejoin the worker is alive and has capacity (so
+  `next_idle_worker` offers it again: the guard of `.submit` on it holds as soon as it is acquired and
+  work is left).
 
 Without the `set_exception` (`failOrphan = false`, seeded change C06-m6) all of this fails:
 `Witness/C06Rejoin.lean`.
@@ -85,5 +88,19 @@ theorem C06_rejoined_worker_has_capacity {c : ACfg} {nw n : Nat} {p p' : ACP} {w
         exact hcap
     · simp at hac
   · simp at hac
+
+/-- The extended LTS adds no behaviour (whatever `failOrphan` is): its bookkeeping component is a run of
+`AC`, so the `AReach` theorems of Properties/C06.lean apply to it. -/
+theorem C06_pend_model_adds_nothing {f : Bool} {c : ACfg} {nw n : Nat} {p : ACP}
+    (h : PReach f c (ACP.init nw n) p) : AReach c (AC.init nw n) p.ac := by
+  induction h with
+  | refl => exact .refl
+  | step l _ hs ih => exact .step l ih (acpStep_ac hs)
+
+/-- non-vacuity: a reachable state of the shipped model in which worker 0 has died with a call in flight,
+was abandoned by the master and has rejoined -/
+example : ∃ p p', PReach true { env := fun w i => if w = 0 ∧ i = 0 then .restart else .ok } (ACP.init 2 2) p ∧
+    acpStep true { env := fun w i => if w = 0 ∧ i = 0 then .restart else .ok } p (.rejoin 0) = some p' :=
+  ⟨_, _, .step (.check 0) (.step (.submit 0) (.step (.acquire 0) .refl (by rfl)) (by rfl)) (by rfl), by rfl⟩
 
 end MlModel.C06
